@@ -17,13 +17,13 @@ Section Main.
   Hypothesis Hfuns : funs_ok p.
 
   Definition P (n : nat) : Prop :=
-    E p n /\ Cn p n /\ Ls p n /\ Ar p n /\ Ca p n /\ As p n /\ X p n /\ B p n /\ W p n /\ F p n.
+    E p n /\ Cn p n /\ Ls p n /\ Ar p n /\ Ca p n /\ As p n /\ X p n /\ B p n /\ W p n /\ F p n /\ Df p n /\ Aq p n /\ En p n.
 
   Lemma P_all : forall n, P n.
   Proof.
     induction n.
-    - unfold P, E, Cn, Ls, Ar, Ca, As, X, B, W, F. repeat split; intros; simpl; exact I.
-    - destruct IHn as [HE [HC [HL [HA [HCa [HAs [HX [HB [HW HF]]]]]]]]].
+    - unfold P, E, Cn, Ls, Ar, Ca, As, X, B, W, F, Df, Aq, En. repeat split; intros; simpl; exact I.
+    - destruct IHn as [HE [HC [HL [HA [HCa [HAs [HX [HB [HW [HF [HD [HQ HN]]]]]]]]]]]].
       assert (HE' : E p (S n)) by (apply E_step; auto).
       unfold P. repeat split; auto.
       + apply Cn_step; auto.
@@ -35,6 +35,9 @@ Section Main.
       + apply B_step; auto.
       + apply W_step; auto.
       + apply F_step; auto.
+      + apply Df_step; auto.
+      + apply Aq_step; auto.
+      + apply En_step; auto.
   Qed.
 
   Hypothesis Hfrag : ok_prog p = true.
@@ -46,8 +49,17 @@ Section Main.
     destruct s; try discriminate; reflexivity.
   Qed.
 
+  Lemma Hbody_ok : forallb ok_stmt (p_body p) = true.
+  Proof. unfold ok_prog in Hfrag. apply andb_true_iff in Hfrag. tauto. Qed.
+
   Lemma file_names_nil : file_names p = [].
-  Proof. unfold file_names. rewrite (no_loads _ Hfrag). reflexivity. Qed.
+  Proof. unfold file_names. rewrite (no_loads _ Hbody_ok). reflexivity. Qed.
+
+  Lemma layout_top_nil : layout_top p = [].
+  Proof.
+    unfold ok_prog in Hfrag. apply andb_true_iff in Hfrag. destruct Hfrag as [_ H].
+    destruct (layout_top p); [reflexivity | discriminate].
+  Qed.
 
   Definition init : vstate := init_state cp (length (global_names p)).
 
@@ -61,9 +73,9 @@ Section Main.
   Proof.
     intros n. destruct (P_all n) as [_ [_ [_ [_ [_ [_ [_ [HB _]]]]]]]].
     assert (HC : fc_code (cp_top cp) = gen_body p [] (p_body p)).
-    { unfold compile_prog. cbn [cp_top fc_code]. rewrite file_names_nil. reflexivity. }
+    { unfold compile_prog. cbn [cp_top fc_code]. rewrite layout_top_nil. reflexivity. }
     assert (HL : fc_nlocals (cp_top cp) = 0).
-    { unfold compile_prog. cbn [cp_top fc_nlocals]. rewrite file_names_nil. reflexivity. }
+    { unfold compile_prog. cbn [cp_top fc_nlocals]. rewrite layout_top_nil. reflexivity. }
     assert (HCe : fc_cells (cp_top cp) = []) by reflexivity.
     assert (Hinit : init = St (Fr None (gen_body p [] (p_body p)) 0 [] [] [] []) [] (repeat None (length (global_names p))) empty_world).
     { unfold init, init_state. rewrite HC, HL, HCe. reflexivity. }
@@ -72,7 +84,7 @@ Section Main.
     { apply pcode_finalize. }
     apply pcode_app in Hcode. destruct Hcode as [Hcb Hct]. pcode_split.
     pose proof (HB [] [] (p_body p) (with_w (init_rst p) empty_world) None (gen_body p [] (p_body p)) [] [] 0 [] None None
-                   Hfrag (Forall_nil _) eq_refl Hcb) as IH.
+                   Hbody_ok (Forall_nil _) eq_refl Hcb) as IH.
     unfold S1, with_w, init_rst in IH. cbn [rg rw env_vals map] in IH.
     unfold with_w, init_rst. cbn [rg rw].
     destruct (exec_block p n [] [] (p_body p) _) as [[[out ρ2] s2]| | |]; cbn [sim fst snd] in *; auto.
@@ -113,7 +125,7 @@ End Main.
 
 Lemma codegen_correct_partial_folded_lemma :
   forall p : program,
-    ok_prog p = true -> funs_ok p -> fold_prog p = p ->
+    ok_prog p = true -> funs_ok p -> number_prog (fold_prog p) = p ->
     forall n m : nat,
       ob_verdict (observe_ref (run_module p n)) <> OutOfFuel ->
       ob_verdict (observe_vm (run_compiled p m)) <> OutOfFuel ->
